@@ -28,6 +28,12 @@ func genC12(coop bool) func(t *rapid.T) c02Case {
 			c.Stack.Strategy = rapid.SampledFrom([]string{"simple", "precise", "lookup"}).Draw(t, "strategy2")
 		}
 		c.Evs = rapid.SliceOfN(genC02Ev(0), 3, 40).Draw(t, "evs")
+		if rapid.IntRange(0, 24).Draw(t, "defaultBacklog") == 0 {
+			// "use the default": zero or negative sizes mean 100; more callers than that arrive at once
+			c.Stack.Backlog = rapid.SampledFrom([]int{0, -1, -7}).Draw(t, "nonPositiveBacklog")
+			c.Stack.TimeoutMs = 50
+			c.Evs = append(c.Evs, c02Ev{K: "mass", N: 100 + c.Stack.Limit + rapid.IntRange(1, 5).Draw(t, "extra")})
+		}
 		if coop {
 			c.Yields = yieldList(rapid.SliceOfN(rapid.SampledFrom([]uint8{0, 0, 1, 1, 2, 3}), 0, 40).Draw(t, "yields"))
 		}
